@@ -35,8 +35,13 @@ XHEAD = '<?xml version="1.0" encoding="UTF-8"?><definitions namespace="ns1" name
 
 
 # ------------------------------------------------------------------ names
+RENAME = {}       # per-graph: knowledge-model id -> a two-word FEEL name (set by run_graphs around the serialisation of one graph)
+
+
 def nm(n, G=None):
     """the DMN/FEEL name of a model name number"""
+    if n in RENAME:
+        return RENAME[n]
     if n >= 3000:
         return 'zz%d' % (n - 3000)
     if n >= 2000:
@@ -172,7 +177,10 @@ def xml_of(G, rng, elname=None):
                          ''.join('<knowledgeRequirement><requiredKnowledge href="#e%d"/></knowledgeRequirement>' % r for r in n['rk']) +
                          box(n['logic'], n.get('foreign', ())) + '</decision>')
         elif k == 'bkm':
-            parts.append('<businessKnowledgeModel name="%s" id="e%d"><variable name="%s"/><encapsulatedLogic>' % (nm(i), i, nm(i)) +
+            # the VARIABLE's several-word name may be written with any white space between its words (the FEEL name is the normal form: one blank); the
+            # element's name attribute stays in normal form: evaluate_invocable looks an invocable up by the attribute as it is written
+            sp = lambda t: t.replace(' ', rng.choice([' ', '  ', ' \n  ', '\t']))
+            parts.append('<businessKnowledgeModel name="%s" id="e%d"><variable name="%s"/><encapsulatedLogic>' % (nm(i), i, sp(nm(i))) +
                          ''.join('<formalParameter name="%s"/>' % nm(p) for p in n['params']) + box(n['body']) + '</encapsulatedLogic>' +
                          ''.join('<knowledgeRequirement><requiredKnowledge href="#e%d"/></knowledgeRequirement>' % r for r in n['rk']) +
                          '</businessKnowledgeModel>')
@@ -755,6 +763,11 @@ def run_graphs(ctx, graphs, tag='g'):
         # in a third of the models some decision elements are named differently from their variables: a decision is invoked by its element name,
         # everything that reads its value (requiring decisions, service outputs) goes by the variable
         elname = {n['id']: 'E' + nm(n['id']) for n in G if n['kind'] == 'dec' and rng.random() < 0.5} if rng.random() < 0.33 else {}
+        # in a quarter of the models some knowledge models have two-word names, written in the document with other white space than the one blank of
+        # the normal form that the logic texts use (seeded change C04_j: the function was bound under the spelling of the document)
+        RENAME.clear()
+        if rng.random() < 0.25:
+            RENAME.update({n['id']: 'k n%d' % n['id'] for n in G if n['kind'] == 'bkm' and rng.random() < 0.6})
         for n in G:
             if n['kind'] == 'input':
                 continue
@@ -762,6 +775,7 @@ def run_graphs(ctx, graphs, tag='g'):
                 calls.append([elname.get(n['id'], nm(n['id'])), ctx_text(d)])
                 idx.append((n['id'], label, d, base))
         reqs.append({'xml': xml_of(G, rng, elname), 'calls': calls})
+        RENAME.clear()
         index.append(idx)
         order = order_of(G)
         fuel = len(G) + 1
